@@ -7,6 +7,8 @@ package lnwallet
 
 //@ load-pkg github.com/lightningnetwork/lnd/chanstate
 //@ inline-func (github.com/lightningnetwork/lnd/chanstate.ChannelType).*
+//@ load-pkg github.com/lightningnetwork/lnd/lntypes
+//@ inline-func (github.com/lightningnetwork/lnd/lntypes.ChannelParty).*
 //@
 //@ extern func (lnwire.MilliSatoshi) ToSatoshis
 //@   ensures result == fdiv(m, 1000)
@@ -247,3 +249,125 @@ package lnwallet
 //@   site call markHtlcModified: assert arg(0) == lc.updateLogs.Remote && arg(1) == retn(localLogUpdateToPayDesc, 0).ParentIndex &&
 //@        retn(localLogUpdateToPayDesc, 0).EntryType != FeeUpdate
 //@   site call localLogUpdateToPayDesc: assert arg(2) == lc.updateLogs.Remote && arg(3) == remoteCommitmentHeight
+//@
+//@ func DeriveCommitmentKeys
+//@   props C04
+//@   requires localChanCfg != nil && remoteChanCfg != nil
+//@   let isLocal = whoseCommit == lntypes.Local
+//@   site call TweakPubKey nth 0: assert arg(0) == localChanCfg.HtlcBasePoint.PubKey && arg(1) == commitPoint
+//@   site call TweakPubKey nth 1: assert arg(0) == remoteChanCfg.HtlcBasePoint.PubKey && arg(1) == commitPoint
+//@   site call TweakPubKey nth 2: assert arg(1) == commitPoint &&
+//@        arg(0) == ite(isLocal, localChanCfg.DelayBasePoint.PubKey, remoteChanCfg.DelayBasePoint.PubKey)
+//@   site call DeriveRevocationPubkey: assert arg(1) == commitPoint &&
+//@        arg(0) == ite(isLocal, remoteChanCfg.RevocationBasePoint.PubKey, localChanCfg.RevocationBasePoint.PubKey)
+//@   site call TweakPubKey nth 3: assert arg(1) == commitPoint &&
+//@        arg(0) == ite(isLocal, remoteChanCfg.PaymentBasePoint.PubKey, localChanCfg.PaymentBasePoint.PubKey)
+//@   ensures result != nil && result.CommitPoint == commitPoint
+//@   ensures result.LocalHtlcKey == ret(TweakPubKey, 0) &&
+//@           result.RemoteHtlcKey == ret(TweakPubKey, 1) && result.ToLocalKey == ret(TweakPubKey, 2) &&
+//@           result.RevocationKey == ret(DeriveRevocationPubkey)
+//@   modifies nothing
+//@
+//@ func findOutputIndexesFromRemote
+//@   props C04
+//@   requires chanState != nil
+//@   loop * havoc
+//@   site call DeriveCommitmentKeys: assert arg(0) == retn(PrivKeyFromBytes, 1) && arg(1) == lntypes.Remote &&
+//@        arg(2) == old(chanState.ChanType) && arg(3) == addr(chanState.LocalChanCfg) && arg(4) == addr(chanState.RemoteChanCfg)
+//@   site call CommitScriptToSelf as a: assert arg(0) == old(chanState.ChanType)
+//@   site call CommitScriptToSelf as b: assert arg(1) == !old(chanState.IsInitiator)
+//@   site call CommitScriptToSelf as c: assert arg(2) == ret(DeriveCommitmentKeys).ToLocalKey && arg(3) == ret(DeriveCommitmentKeys).RevocationKey
+//@   site call CommitScriptToSelf as d: assert arg(4) == old(chanState.RemoteChanCfg.CsvDelay)
+//@   site call CommitScriptToRemote: assert arg(0) == old(chanState.ChanType) && arg(1) == !old(chanState.IsInitiator) &&
+//@        arg(2) == ret(DeriveCommitmentKeys).ToRemoteKey
+//@
+//@ func createHtlcRetribution
+//@   props C04
+//@   modifies-assumed nothing
+//@   requires chanState != nil
+//@   site call SecondLevelHtlcScript: assert arg(0) == chanState.ChanType && arg(1) == !chanState.IsInitiator &&
+//@        arg(2) == keyRing.RevocationKey && arg(3) == keyRing.ToLocalKey && arg(4) == chanState.RemoteChanCfg.CsvDelay &&
+//@        arg(5) == leaseExpiry
+//@   site call genHtlcScript: assert arg(0) == chanState.ChanType && arg(1) == htlc.Incoming.Val && arg(2) == lntypes.Remote &&
+//@        arg(3) == htlc.RefundTimeout.Val && arg(5) == keyRing
+//@   site call WitnessScriptForPath: assert arg(1) == input.ScriptPathSuccess
+//@   ensures result1 == nil ==> result0.OutPoint.Index == htlc.OutputIndex.Val
+//@   ensures result1 == nil ==> result0.IsIncoming == htlc.Incoming.Val
+//@   ensures result1 == nil ==> result0.SignDesc.DoubleTweak == commitmentSecret
+//@   ensures result1 == nil ==> result0.SignDesc.Output.Value == wrap(ret(Int), 64) - ite(wrap(ret(Int), 64) >= 9223372036854775808, 18446744073709551616, 0)
+//@
+//@ func createBreachRetribution
+//@   props C04
+//@   requires revokedLog != nil && chanState != nil && keyRing != nil
+//@   requires spendTx != nil ==> forallq(k, 0, len(spendTx.TxOut), spendTx.TxOut[k] != nil)
+//@   loop * havoc
+//@   loop 0 invariant len(htlcRetributions) == old(len(revokedLog.HTLCEntries))
+//@   site call createHtlcRetribution: assert arg(0) == chanState && arg(1) == keyRing && arg(3) == commitmentSecret &&
+//@        arg(4) == leaseExpiry && arg(5) == htlc
+//@   ensures result3 == nil ==> result0 != nil && result0.KeyRing == keyRing && result0.ChanType == chanState.ChanType
+//@   ensures result3 == nil ==> result0.LocalOutpoint.Index == ite(revokedLog.OurOutputIndex.Val != 65535, revokedLog.OurOutputIndex.Val, 0)
+//@   ensures result3 == nil ==> result0.RemoteOutpoint.Index == ite(revokedLog.TheirOutputIndex.Val != 65535, revokedLog.TheirOutputIndex.Val, 0)
+//@   ensures result3 == nil && spendTx != nil && revokedLog.OurOutputIndex.Val != 65535 ==>
+//@           revokedLog.OurOutputIndex.Val < len(spendTx.TxOut) && result1 == spendTx.TxOut[revokedLog.OurOutputIndex.Val].Value
+//@   ensures result3 == nil && spendTx != nil && revokedLog.TheirOutputIndex.Val != 65535 ==>
+//@           revokedLog.TheirOutputIndex.Val < len(spendTx.TxOut) && result2 == spendTx.TxOut[revokedLog.TheirOutputIndex.Val].Value
+//@   ensures result3 == nil && revokedLog.OurOutputIndex.Val == 65535 ==> result1 == 0
+//@   ensures result3 == nil && revokedLog.TheirOutputIndex.Val == 65535 ==> result2 == 0
+//@   nopanic
+//@
+//@ func NewBreachRetribution
+//@   props C04
+//@   requires chanState != nil
+//@   requires spendTx != nil ==> forallq(k, 0, len(spendTx.TxOut), spendTx.TxOut[k] != nil)
+//@   loop * havoc
+//@   site call FindPreviousState: assert arg(1) == stateNum
+//@   site call LookUp: assert arg(1) == stateNum && retn(FindPreviousState, 2) == nil
+//@   site call PrivKeyFromBytes: assert retn(LookUp, 1) == nil
+//@   site call DeriveCommitmentKeys: assert arg(0) == retn(PrivKeyFromBytes, 1) && arg(1) == lntypes.Remote &&
+//@        arg(2) == chanState.ChanType && arg(3) == addr(chanState.LocalChanCfg) && arg(4) == addr(chanState.RemoteChanCfg)
+//@   site call CommitScriptToRemote: assert arg(1) == !chanState.IsInitiator && arg(2) == ret(DeriveCommitmentKeys).ToRemoteKey
+//@   site call CommitScriptToSelf: assert arg(1) == !chanState.IsInitiator && arg(2) == ret(DeriveCommitmentKeys).ToLocalKey &&
+//@        arg(3) == ret(DeriveCommitmentKeys).RevocationKey && arg(4) == chanState.RemoteChanCfg.CsvDelay
+//@   site call createBreachRetribution: assert arg(0) == retn(FindPreviousState, 0) && arg(1) == spendTx && arg(2) == chanState &&
+//@        arg(3) == ret(DeriveCommitmentKeys) && arg(4) == retn(PrivKeyFromBytes, 0)
+//@   site call WitnessScriptForPath nth 0: assert arg(1) == input.ScriptPathDelay
+//@   site call WitnessScriptForPath nth 1: assert arg(1) == input.ScriptPathRevocation
+//@   site store SignDescriptor.DoubleTweak: assert value == retn(PrivKeyFromBytes, 0)
+//@   site store SignDescriptor.SingleTweak: assert value == ret(DeriveCommitmentKeys).LocalCommitKeyTweak
+//@   site store TxOut.Value nth 0: assert value >= chanState.RemoteChanCfg.DustLimit
+//@   site store TxOut.Value nth 1: assert value >= chanState.RemoteChanCfg.DustLimit
+//@
+//@ extern func (binary.bigEndian) Uint64
+//@   ensures 0 <= result && result <= 18446744073709551615
+//@   ensures len(b) == 8 && b[0] == 0 && b[1] == 0 ==> result <= 281474976710655
+//@
+//@ spec func hintSeq(n int, x int) int = bor32(bxor64(n, x) / 16777216 % 4294967296, 2147483648)
+//@ spec func hintLock(n int, x int) int = bor32(bxor64(n, x) % 16777216, 536870912)
+//@ spec func hintGet(seq int, lock int, x int) int = bxor64(bor64(seq % 16777216 * 16777216, lock % 16777216), x)
+//@
+//@ lemma bv hintRoundTrip(n uint64, x uint64): n <= 281474976710655 && x <= 281474976710655 ==>
+//@        bxor64(bor64(uint64(bor32(uint32(bxor64(n, x) >> 24), 2147483648) & 16777215) << 24,
+//@                     uint64(bor32(uint32(bxor64(n, x) & 16777215), 536870912) & 16777215)), x) == n
+//@   props C04
+//@
+//@ lemma hintInverse(n int, x int): 0 <= n && n <= 281474976710655 && 0 <= x && x <= 281474976710655 ==>
+//@        hintGet(hintSeq(n, x), hintLock(n, x), x) == n
+//@   props C04
+//@   uses hintRoundTrip(n, x)
+//@
+//@ func SetStateNumHint
+//@   props C04
+//@   requires commitTx != nil
+//@   ensures result == nil ==> stateNum <= 281474976710655 && len(commitTx.TxIn) == 1
+//@   ensures result == nil ==> commitTx.TxIn[0].Sequence == hintSeq(stateNum, ret(Uint64))
+//@   ensures result == nil ==> commitTx.LockTime == hintLock(stateNum, ret(Uint64))
+//@   ensures result == nil ==> ret(Uint64) <= 281474976710655
+//@   site call Uint64: assert len(arg(1)) == 8 && arg(1)[0] == 0 && arg(1)[1] == 0
+//@
+//@ func GetStateNumHint
+//@   props C04
+//@   requires commitTx != nil && len(commitTx.TxIn) >= 1 && commitTx.TxIn[0] != nil
+//@   ensures result == hintGet(commitTx.TxIn[0].Sequence, commitTx.LockTime, ret(Uint64))
+//@   ensures ret(Uint64) <= 281474976710655
+//@   site call Uint64: assert len(arg(1)) == 8 && arg(1)[0] == 0 && arg(1)[1] == 0
+//@   nopanic
